@@ -82,9 +82,30 @@ fn replay_one<S: Tok>(b: &Value, bad: &mut Vec<Value>, evals: &mut u64) {
     let want: Vec<i64> = b["final"].as_array().unwrap().iter().map(|v| v.as_i64().unwrap()).collect();
     let log: Log = Default::default();
     let init: Vec<S> = vec![S::of(9); dim];
-    let mut chain = GibbsMarkovChain::new(new_cond::<S>(&log, script.clone(), 0), &init);
+    // `current_state` is a public field: every second behaviour is replayed on a chain that was built somewhere else, has made one
+    // throw-away sweep there (dim extra script entries, log cleared afterwards) and is then put on the behaviour's start by
+    // assignment -- the conditional must be handed the state the chain is in NOW
+    static MOVED: std::sync::atomic::AtomicUsize = std::sync::atomic::AtomicUsize::new(0);
+    let moved = MOVED.fetch_add(1, std::sync::atomic::Ordering::Relaxed) % 2 == 1;
+    let mut chain = if moved {
+        let mut pre: Vec<usize> = (0..dim).map(|k| (k + 3) % 10).collect();
+        pre.extend(script.iter().cloned());
+        let elsewhere: Vec<S> = vec![S::of(4); dim];
+        let mut ch = GibbsMarkovChain::new(new_cond::<S>(&log, pre, 0), &elsewhere);
+        let _ = catch(|| { ch.step(); });
+        log.lock().unwrap().clear();
+        ch.current_state = init.clone();
+        ch
+    } else {
+        GibbsMarkovChain::new(new_cond::<S>(&log, script.clone(), 0), &init)
+    };
+    // sweep counts after which MC_Gibbs!Assign put the chain on <<7, ..., 7>> (a public-field assignment between sweeps)
+    let assigns: Vec<usize> = b["assigns"].as_array().map(|a| a.iter().map(|v| v.as_u64().unwrap() as usize).collect()).unwrap_or_default();
     let r = catch(|| {
-        for _ in 0..sweeps {
+        for k in 0..sweeps {
+            if assigns.contains(&k) {
+                chain.current_state = vec![S::of(7); dim];
+            }
             chain.step();
         }
     });
@@ -97,6 +118,9 @@ fn replay_one<S: Tok>(b: &Value, bad: &mut Vec<Value>, evals: &mut u64) {
     if ok {
         for (k, c) in calls.iter().enumerate() {
             let i = k % dim;
+            if i == 0 && assigns.contains(&(k / dim)) {
+                st = vec![7; dim];
+            }
             let given: Vec<i64> = c["given"].as_array().unwrap().iter().map(|v| v.as_i64().unwrap()).collect();
             if c["i"].as_u64().unwrap() as usize != i || given != st {
                 ok = false;
@@ -218,6 +242,12 @@ pub fn record(args: &[String]) {
             _ => record_chain::<usize>(cs, dim, steps, &mut out),
         }
     }
+    // long states of every element type, whatever the seed drew above (a sweep organised in blocks of bytes / lanes shows up
+    // only past the block size): 64 eight-byte coordinates, 130 four-byte ones
+    record_chain::<f64>(splitmix(&mut s), 64, steps.min(6), &mut out);
+    record_chain::<usize>(splitmix(&mut s), 64, steps.min(6), &mut out);
+    record_chain::<f32>(splitmix(&mut s), 130, steps.min(6), &mut out);
+    record_chain::<i32>(splitmix(&mut s), 130, steps.min(6), &mut out);
     record_sampler::<f64>(splitmix(&mut s), 5, 3, steps, &mut out);
     record_sampler::<i32>(splitmix(&mut s), 8, 2, steps, &mut out);
     record_sampler::<f32>(splitmix(&mut s), 3, 5, steps.min(12), &mut out);
